@@ -359,3 +359,10 @@ def main_wrapper(fn):
     except subprocess.TimeoutExpired as e:
         print("TOOL-ERROR: timeout %s" % e, file=sys.stderr)
         sys.exit(2)
+    except SystemExit:
+        raise
+    except BaseException as e:  # a bug or an I/O problem of the machinery is a tool error, never exit 1
+        import traceback
+        traceback.print_exc()
+        print("TOOL-ERROR: unexpected %s: %s" % (type(e).__name__, e), file=sys.stderr)
+        sys.exit(2)
